@@ -4,7 +4,9 @@ cd "$(dirname "$0")"
 tier=${1:-quick}
 for id in $(python3 -c "import json;print(' '.join(c['property_id'] for c in json.load(open('MANIFEST.json'))['checks']))"); do
   t0=$(date +%s)
-  out=$(timeout 3000 ./check $id $tier 2>&1); code=$?
+  mkdir -p scratch
+  out=$(timeout ${VERIF_RUN_TIMEOUT:-3000} ./check $id $tier 2>&1); code=$?
+  echo "$out" > scratch/run_${tier}_$id.log
   echo "$id exit=$code $(( $(date +%s) - t0 ))s $(echo "$out" | grep -c '^VIOLATION') violations $(echo "$out" | grep -c '^INCONCLUSIVE') inconclusive-lines $(echo "$out" | grep -c '^KNOWN-FINDING') known"
   echo "$out" | grep '^INCONCLUSIVE' | sed 's/obligation=[^ ]* //' | sort | uniq -c | sort -rn | head -3 | cut -c1-220
 done
